@@ -50,6 +50,8 @@ struct XWorld {
     n: usize,
     tag: u32,
     ever: Vec<BlockHash>,
+    /// blocks that were connected with an empty key map
+    bare: std::collections::HashSet<BlockHash>,
 }
 
 fn validated(e: &BlockEntry) -> ValidatedBlock {
@@ -80,6 +82,7 @@ impl XWorld {
             reference,
             n,
             tag: 0,
+            bare: std::collections::HashSet::new(),
         }
     }
 
@@ -105,9 +108,14 @@ impl XWorld {
                 let prev = self.blocks[self.chain.last().unwrap()].clone();
                 let e = make_block_pub(Some(&prev), txs, self.tag);
                 let header = e.block.header;
-                let m1: HashMap<Txid, BlockHash> = e.block.txdata.iter().map(|t| (t.compute_txid(), e.hash)).collect();
+                // bit 3: the block is handed over with no transactions at all (as a filtered block would be)
+                let bare = mask & 8 != 0;
+                if bare {
+                    self.bare.insert(e.hash);
+                }
+                let m1: HashMap<Txid, BlockHash> = if bare { HashMap::new() } else { e.block.txdata.iter().map(|t| (t.compute_txid(), e.hash)).collect() };
                 let m2: HashMap<Locator, Transaction> =
-                    e.block.txdata.iter().map(|t| (Locator::new(t.compute_txid()), t.clone())).collect();
+                    if bare { HashMap::new() } else { e.block.txdata.iter().map(|t| (Locator::new(t.compute_txid()), t.clone())).collect() };
                 self.idx_txid.update(header, &m1);
                 self.idx_loc.update(header, &m2);
                 self.chain.push(e.hash);
@@ -133,6 +141,9 @@ impl XWorld {
         // expected content
         let mut exp: HashMap<Txid, (BlockHash, Transaction)> = HashMap::new();
         for h in self.reference.iter() {
+            if self.bare.contains(h) {
+                continue;
+            }
             for t in self.blocks[h].block.txdata.iter() {
                 exp.insert(t.compute_txid(), (*h, t.clone()));
             }
@@ -197,7 +208,7 @@ impl XWorld {
                     if universe_tx(i).compute_txid() == t.compute_txid() { mask |= 1 << i; }
                 }
             }
-            format!("{}:{}", e.height, mask)
+            format!("{}:{}:{}", e.height, mask, self.bare.contains(h))
         }).collect();
         // structural snapshot of both real indexes, with block hashes / txids replaced by
         // history-independent labels (height+content for blocks, universe index or coinbase height
@@ -247,11 +258,20 @@ impl Model for XModel {
     }
     fn run(&self, history: &[XOp]) -> StepResult<XOp> {
         let mut w = XWorld::new(self.n, self.n + 2);
-        for op in history {
-            w.apply(op);
-        }
         let mut v = Vec::new();
-        w.check(&mut v);
+        for op in history {
+            // a panic of the index is a verdict, not a crash of the explorer
+            if let Err(p) = std::panic::catch_unwind(std::panic::AssertUnwindSafe(|| w.apply(op))) {
+                let msg: String = crate::world::panic_message(&p).chars().take(80).collect();
+                v.push((format!("panic:tx_index:{msg}"), format!("{op:?} panicked: {} @{}", crate::world::panic_message(&p), crate::world::take_panic_location())));
+                return StepResult { fingerprint: 0, enabled: vec![], prune: true, violations: v, outcome: "panic".into() };
+            }
+        }
+        if let Err(p) = std::panic::catch_unwind(std::panic::AssertUnwindSafe(|| w.check(&mut v))) {
+            let msg: String = crate::world::panic_message(&p).chars().take(80).collect();
+            v.push((format!("panic:tx_index:{msg}"), format!("a look-up panicked: {}", crate::world::panic_message(&p))));
+            return StepResult { fingerprint: 0, enabled: vec![], prune: true, violations: v, outcome: "panic".into() };
+        }
         v.sort();
         v.dedup_by(|a, b| a.0 == b.0);
         let live = w.live_keys();
@@ -261,6 +281,7 @@ impl Model for XModel {
                 enabled.push(XOp::Connect(mask));
             }
         }
+        enabled.push(XOp::Connect(8));
         if w.chain.len() > 1 && !w.reference.is_empty() {
             enabled.push(XOp::Disconnect);
         }
